@@ -42,13 +42,14 @@ def one(d):
         if rc != 0:
             out["error"] = o[-200:]
             return out
-        env = dict(os.environ, VERIF_REPO=wt, VERIF_NPROC=os.environ.get("VERIF_NPROC", ""))
+        env = dict(os.environ, VERIF_REPO=wt, VERIF_OUT=wt + "-out", VERIF_NPROC=os.environ.get("VERIF_NPROC", ""))
         for c in checks:
             rc, o = sh("./check %s --tier quick" % c, cwd=ROOT, env=env)
             sigs = [l.strip()[:160] for l in o.splitlines() if l.strip().startswith("violation sig=")]
             out["checks"][c] = {"rc": rc, "first_signature": sigs[0] if sigs else None}
     finally:
         sh("git -C /repo worktree remove --force %s" % wt)
+        sh("rm -rf %s-out" % wt)
     return out
 
 
@@ -70,7 +71,6 @@ def main():
             print("%-9s %s %s" % (r["id"], "caught" if caught else "MISSED", {c: v["rc"] for c, v in r["checks"].items()}
                                   if r.get("applies", True) else r.get("error")), flush=True)
             results.append(r)
-    sh("git -C %s checkout -- evidence" % ROOT)
     n = sum(1 for r in results if any(v["rc"] == 1 for v in r["checks"].values()))
     print("%d of %d seeded changes detected" % (n, len(results)))
     with open(os.path.join(ROOT, "seeded", "recheck.json"), "w") as fp:
